@@ -221,3 +221,11 @@ Proof.
   cbn. rewrite andb_false_r. destruct o as [l|]; cbn [init_group g_key]; [|reflexivity].
   destruct (key_mem k l); reflexivity.
 Qed.
+
+Lemma bridge_flag_never_cleared : forall {E : Type} (st : flag_state E) ops, fst st = true -> fst (flag_run st ops) = true.
+Proof. intros E st ops Hb. destruct (g_titratable (snd st)) eqn:Hg.
+  - revert st Hb Hg. unfold flag_run. induction ops as [|o ops IH]; cbn [fold_left]; intros st Hb Hg; [exact Hb|].
+    destruct (g_titratable (snd (flag_step st o))) eqn:H2; [apply IH; [apply flag_step_bridge_monotone; exact Hb | exact H2]|].
+    apply (bridged_never_titratable ops (flag_step st o)); [apply flag_step_bridge_monotone; exact Hb | exact H2].
+  - apply (bridged_never_titratable ops st Hb Hg).
+Qed.
